@@ -1132,6 +1132,6 @@ func Gen(r *core.Rng, tier string) ([]core.In[Input], bool) {
 
 var Driver = core.Driver[Input, Obs]{
 	Spec: core.Spec{Property: "C08", Imports: []string{"Json", "C08_Model", "C08_Spec", "C08_Corr"}, Corr: "C08_Corr", Triggers: []string{"F8", "F16"}, ShrinkKey: "history",
-		Rule: "scripted histories of watch events (1-3 objects; creations, single-field changes mostly outside a given projection, re-deliveries of the identical state, flips back to earlier states, deletes and re-creations) delivered to the resourceInformer of a real monitor (NewMonitor+CreateInformers on a fake cluster, not started) through its client-go handler methods OnAdd/OnUpdate/OnDelete; the handler's argument in both forms client-go uses: the *unstructured.Unstructured itself, or - in 3 cases of 5 for half of the Deleted deliveries - the cache.DeletedFinalStateUnknown tombstone (by value) that a real client-go DeltaFIFO.Replace produces for an object missing from a relist; in those cases also relist batches (15% per step: per object changed / deleted-and-recreated -> OnUpdate, unchanged -> OnUpdate or left out, new -> OnAdd, then tombstones for the missing ones); all 8 subsets of {Added,Modified,Deleted} and 'not configured' round robin; filter family: none, object paths, constructed objects (main stream), scalars, arrays, null, empty/select, multiple outputs (trigger-F8 stream, ~27%), failing filters (trigger-F16 stream, ~8%); /usr/bin/jq answers for every state are the model's oracle table; non-trivial = >= 3 deliveries with at least one fired and one silent delivery; distinct = distinct input text. START CASES (stream 'start', 126 of the quick tier, and 8 corpus cases; harness/internal/c08/start.go): 0-3 objects exist in the fake cluster as an API server returns them (uid, resourceVersion, creationTimestamp, labels, sometimes generation and the last-applied annotation, 65% with metadata.managedFields); then the monitor is created (loadExistedObjects lists them; the snapshot right after is compared), unlocked and STARTED: the real client-go shared informer (FactoryStore.Start; in 30% another binding's monitor runs already and the informer is joined) makes every delivery - its replay of the existing objects, then 0-3 ordinary cluster operations (create, update with the resourceVersion moved / managedFields rewritten / bookkeeping only, delete, re-create); bindings: no jqFilter 35%, `.` 13%, `.metadata` 13%, `.data` 10%, del(.status), constructed objects over metadata / labels / data / managedFields; every subset of event types and 'not configured' round robin; each delivery is observed from the informer's own goroutine (handler that ran, object delivered, events fired, snapshot); the environment assumption of C08_start_redelivery_silent (the informer re-delivers exactly the listed objects, unchanged) is checked on every such case; non-trivial start case = at least one existing object replayed and at least two deliveries, all observed. DECLARED CASES (streams 'declared' / 'declared-start', 81 + 27 of the quick tier, and 11 corpus cases; harness/internal/c08/decl.go): the binding is written as the TEXT of a v1 hook configuration - executeHookOnEvent absent or any of the 8 subsets, the deprecated watchEvent absent or any of the 8 subsets: all 81 pairs in every run (thorough: 25 rounds), lists permuted (30%) or with a repeated element (10%), JSON / YAML flow / YAML block round robin, the two keys in either order, sometimes name and executeHookOnSynchronization:false - and given to the REAL loader (HookConfig.LoadAndValidate: schema validation, yaml unmarshalling, HookConfigV1.ConvertAndCheck); the monitor runs with the MonitorConfig the loader returned (created as KubeEventsManager.AddMonitor does) with the harness calling the handlers (histories as above, 1-2 objects, up to 6 deliveries) or, one case in three, as a start case with the real shared informer; MonitorConfig.EventTypes as loaded is compared with the model's conversion (effective_types) and every observation is judged by P_decl against the DECLARED list; non-trivial declared case = as for its mode, for `executeHookOnEvent: []` at least three deliveries all kept silent. MULTI-OUTPUT CASES (stream 'multi-output', 150 of the quick tier, 6000 thorough, and 6 corpus cases; harness/internal/c08/multi.go): the jqFilter is a comma list of 2-4 parts out of 19 (paths .metadata.labels/.data/.spec/.status/.a/.b/.items/.metadata.annotations that are an object for one object state and null, a scalar, an array for another; constructed objects; null, 1, a string, empty, .items[]?, [.a], (.a|objects), .a?.k?) - any of the 342 ordered pairs (50%), random triples/quadruples (25%), 16 written-out filters (.metadata.labels, .data / .a, .b, .c / .[]? / empty / ...; 25%) - over histories as above whose object states switch the parts' sources on and off (labels, data, annotations, spec, status removed / added; .a, .b, .c object <-> scalar <-> null) and change values inside them; every subset of event types, all three listed in 1 of 3; the FilterResult of every delivery (cache entry, else fired event) is compared with the model's merge of /usr/bin/jq's outputs and judged by the specification's clause fr_shows (for every key the last object output binding it), the trigger decision by P; F8 excuses only histories in which two DIFFERING results merge into the same object (T_F8m)"},
+		Rule: "scripted histories of watch events (1-3 objects; creations, single-field changes mostly outside a given projection, re-deliveries of the identical state, flips back to earlier states, deletes and re-creations) delivered to the resourceInformer of a real monitor (NewMonitor+CreateInformers on a fake cluster, not started) through its client-go handler methods OnAdd/OnUpdate/OnDelete; the handler's argument in both forms client-go uses: the *unstructured.Unstructured itself, or - in 3 cases of 5 for half of the Deleted deliveries - the cache.DeletedFinalStateUnknown tombstone (by value) that a real client-go DeltaFIFO.Replace produces for an object missing from a relist; in those cases also relist batches (15% per step: per object changed / deleted-and-recreated -> OnUpdate, unchanged -> OnUpdate or left out, new -> OnAdd, then tombstones for the missing ones); all 8 subsets of {Added,Modified,Deleted} and 'not configured' round robin; filter family: none, object paths, constructed objects (main stream), scalars, arrays, null, empty/select, multiple outputs (trigger-F8 stream, ~27%), failing filters (trigger-F16 stream, ~8%); /usr/bin/jq answers for every state are the model's oracle table; non-trivial = >= 3 deliveries with at least one fired and one silent delivery; distinct = distinct input text. START CASES (stream 'start', 126 of the quick tier, and 8 corpus cases; harness/internal/c08/start.go): 0-3 objects exist in the fake cluster as an API server returns them (uid, resourceVersion, creationTimestamp, labels, sometimes generation and the last-applied annotation, 65% with metadata.managedFields); then the monitor is created (loadExistedObjects lists them; the snapshot right after is compared), unlocked and STARTED: the real client-go shared informer (FactoryStore.Start; in 30% another binding's monitor runs already and the informer is joined) makes every delivery - its replay of the existing objects, then 0-3 ordinary cluster operations (create, update with the resourceVersion moved / managedFields rewritten / bookkeeping only, delete, re-create); bindings: no jqFilter 35%, `.` 13%, `.metadata` 13%, `.data` 10%, del(.status), constructed objects over metadata / labels / data / managedFields; every subset of event types and 'not configured' round robin; each delivery is observed from the informer's own goroutine (handler that ran, object delivered, events fired, snapshot); the environment assumption of C08_start_redelivery_silent (the informer re-delivers exactly the listed objects, unchanged) is checked on every such case; non-trivial start case = at least one existing object replayed and at least two deliveries, all observed. DECLARED CASES (streams 'declared' / 'declared-start', 81 + 27 of the quick tier, and 11 corpus cases; harness/internal/c08/decl.go): the binding is written as the TEXT of a v1 hook configuration - executeHookOnEvent absent or any of the 8 subsets, the deprecated watchEvent absent or any of the 8 subsets: all 81 pairs in every run (thorough: 25 rounds), lists permuted (30%) or with a repeated element (10%), JSON / YAML flow / YAML block round robin, the two keys in either order, sometimes name and executeHookOnSynchronization:false - and given to the REAL loader (HookConfig.LoadAndValidate: schema validation, yaml unmarshalling, HookConfigV1.ConvertAndCheck); the monitor runs with the MonitorConfig the loader returned (created as KubeEventsManager.AddMonitor does) with the harness calling the handlers (histories as above, 1-2 objects, up to 6 deliveries) or, one case in three, as a start case with the real shared informer; MonitorConfig.EventTypes as loaded is compared with the model's conversion (effective_types) and every observation is judged by P_decl against the DECLARED list; non-trivial declared case = as for its mode, for `executeHookOnEvent: []` at least three deliveries all kept silent. MULTI-OUTPUT CASES (stream 'multi-output', 150 of the quick tier, 6000 thorough, and 6 corpus cases; harness/internal/c08/multi.go): the jqFilter is a comma list of 2-4 parts out of 19 (paths .metadata.labels/.data/.spec/.status/.a/.b/.items/.metadata.annotations that are an object for one object state and null, a scalar, an array for another; constructed objects; null, 1, a string, empty, .items[]?, [.a], (.a|objects), .a?.k?) - any of the 342 ordered pairs (50%), random triples/quadruples (25%), 16 written-out filters (.metadata.labels, .data / .a, .b, .c / .[]? / empty / ...; 25%) - over histories as above whose object states switch the parts' sources on and off (labels, data, annotations, spec, status removed / added; .a, .b, .c object <-> scalar <-> null) and change values inside them; every subset of event types, all three listed in 1 of 3; the FilterResult of every delivery (cache entry, else fired event) is compared with the model's merge of /usr/bin/jq's outputs and judged by the specification's clause fr_shows (for every key the last object output binding it), the trigger decision by P; F8 excuses only histories in which two DIFFERING results merge into the same object (T_F8m). LOOK-ALIKE CASES (streams 'look-alike' 170 / 'look-alike-start' 30 of the quick tier, 8000 / 1200 thorough, and 6 corpus cases; harness/internal/c08/alike.go): the VALUE DOMAIN of projections - Services (spec.ports[i].targetPort, an IntOrString; metadata.annotations; spec.selector) and ConfigMaps (data, data values, annotations, a free field .x holding a small tree), 10 jqFilters each (constructed objects over targetPorts / annotations / data / .x, .spec, .data, no filter), kinds alternating, filters round robin, Modified listed in 7 cases of 9; the histories (as above: changes, re-deliveries, deletes, relist batches, or - start cases - cluster operations delivered by the real shared informer) move a selected field, at a random position of its value tree, between look-alikes: a value and its Go fmt text as a string (9090 / \"9090\", true / \"true\", null / \"<nil>\", a map / \"map[a:x]\", an array / \"[x y]\"), a value and its JSON text as a string, a string and the JSON value it spells (\"null\" / null, \"1.5\" / 1.5), the next key folded into a string value and back ({a:x,b:y} / {a:\"x b:y\"}, also with , and \",\" as separators), two array elements folded into one string and back, the same number written n / n.0 (the SAME value: must stay silent), ordinary changes, changes outside the projection; the projections are /usr/bin/jq's answers and Coq compares them structurally as JSON values (P and the clause modified_values_ok); every state and answer is checked to be a JSON value in the sense of val_ok (hypothesis of the checksum theorems)"},
 	Gen: Gen, Run: Run, Render: Render, PerShard: 60, Workers: 8, CaseTimout: 20 * time.Second,
 }
